@@ -61,10 +61,10 @@ theorem classes_registered_and_disjoint :
     (∀ t ∈ fullTypes ++ opaqueTypes ++ unmodelledTypes, t ∈ Gate.Gen.C04.registryTypes) ∧
     (∀ t ∈ fullTypes, t ∉ opaqueTypes ∧ t ∉ unmodelledTypes) ∧ (∀ t ∈ opaqueTypes, t ∉ unmodelledTypes) := by decide
 
-/-- exact coverage: 66 registered types = 45 with a full schema + 15 with opaque fields + 6 without a schema -/
+/-- exact coverage: 66 registered types = 45 with a full schema + 17 with opaque fields + 4 without a schema -/
 theorem coverage_counts :
-    Gate.Gen.C04.registryTypes.length = 66 ∧ fullTypes.length = 45 ∧ opaqueTypes.length = 15 ∧
-    unmodelledTypes.length = 6 := by decide
+    Gate.Gen.C04.registryTypes.length = 66 ∧ fullTypes.length = 45 ∧ opaqueTypes.length = 17 ∧
+    unmodelledTypes.length = 4 := by decide
 
 /-- a probe context per registry/direction; `schemaOf` only branches on the name for `isSome` -/
 def probe : Ctx := { proto := 767, dir := 0, state := 4, id := 1 }
